@@ -14,7 +14,9 @@ def check(ctx):
     compiled_scanner_is_frozen(ctx, "C02.m")   # nothing edits a compiled scanner after the pipeline produced it (closed writer sets)
     # (C14.d: the lock discipline — a failing build that blocks on the lock it already holds never returns its error and
     # stops every later build)
-    sharing.analyze(ctx, RULES | {"C14.d"})
+    # (C12.a: a hit hands out a *clone* of the entry; that is a private copy only if the compiled scanner's Clone impls are the
+    # derived ones and no interior-mutable cell is reachable from it — an `Arc<AtomicUsize>` field is shared by every clone)
+    sharing.analyze(ctx, RULES | {"C14.d", "C12.a"})
     # 'a build that fails returns an error without affecting later builds': the compilation runs under the cache's write
     # lock, so a panic there (instead of an Err) poisons the lock and every later build panics: the build-path panic
     # inventory (with the partition invariants its reasons cite) and the build path's error discipline belong here as well
